@@ -20,6 +20,7 @@ def regions():
         ('back-quoted', '`', '`', 'Name', ['``'], ('`',), ()),
         ('dollar', '$$', '$$', 'Literal', ["'", '--', '/*'], ('$',), ()),
         ('dollar-tag', '$a$', '$a$', 'Literal', ["'", '$$'], (), ('$a$',)),
+        ('dollar-tag-nonascii', '$é_1$', '$é_1$', 'Literal', ["'", '$$', '$É_1$'], (), ('$é_1$',)),
         ('block-comment', '/*', '*/', 'Comment.Multiline', ['--', "'", '/*'], (), ('*/',)),
         ('line-comment', '--', '\n', 'Comment.Single', ["'", '/*', '*/', '--'], ('\n', '\r'), ()),
         ('hash-comment', '# ', '\n', 'Comment.Single', ["'", '/*'], ('\n', '\r'), ()),
@@ -65,6 +66,8 @@ def check_phrase(lexer, left, lexeme, right, expect):
             if TZCAST.search(left) and oracles.tname(tt) == 'Keyword.TZCast' and pos < lo and end == hi \
                     and TZCAST.search(text[pos:lo]):
                 return None
+            if len(left) == 1 and pos == 0 and end == hi and oracles.tname(tt).startswith(expect.rsplit('.', 1)[0]):
+                return None        # a one-letter string prefix (E'..', N'..') lexed as part of the string token
             return (oracles.tname(tt), val)
         pos = end
     return ('boundary', 'no token covers the region')
@@ -146,10 +149,14 @@ def run(tier, seed):
         from sqlparse import lexer, tokens as T
         # a caller's own, differently configured Lexer objects exist next to the default one: the tables the
         # default instance classifies by are its own
+        lexer.Lexer.get_default_instance()          # the default lexer exists already (a long-running process)
         own = [lexer.Lexer(), lexer.Lexer()]
         own[0].clear()
         own[1].default_initialization()
         own[1].add_keywords({'FOO': T.Keyword, 'SELECT': T.Name, 'ZZ_NO_WORD': T.Keyword.DML})
+        # ... and are in use: whatever they compute or remember about a word is theirs
+        for lx in own:
+            list(lx.get_tokens("select foo, zz_no_word, map from bar where x like 'y' order by 1 -- c"))
         acc = core.Acc(bits=26 if tier == 'thorough' else 24)
         for kind, a, b in chunk:
             if kind == 'region':
@@ -164,7 +171,7 @@ def run(tier, seed):
                     bt = ''.join(body)
                     if any(s in bt for s in forbsub) or (cl != '\n' and cl in bt and len(cl) > 1):
                         continue
-                    if name in ('dollar', 'dollar-tag') and (op + bt + cl).find(cl, len(op)) != len(op) + len(bt):
+                    if name.startswith('dollar') and (op + bt + cl).find(cl, len(op)) != len(op) + len(bt):
                         continue       # the body (with the closer's first chars) must not form the terminator early
                     if name == 'block-comment' and ('/*' + bt + '*/').find('*/', 2) != 2 + len(bt):
                         continue
@@ -206,7 +213,7 @@ def run(tier, seed):
                                 if bad:
                                     lc = 'operator-char' if l and l[-1] in OPCHARS else _ctx_name(l)
                                     sig = f'{name}|left={lc}|got={bad[0]}'
-                                    if name == 'dollar-tag' and isinstance(bad[1], str) and bad[1] != lexeme and \
+                                    if name.startswith('dollar-tag') and isinstance(bad[1], str) and bad[1] != lexeme and \
                                             lexeme.startswith(bad[1]) and bad[1][-len(cl):].lower() == cl.lower() \
                                             and bad[1][-len(cl):] != cl:
                                         sig = 'dollar-tag|terminator-matched-case-insensitively'
